@@ -1,5 +1,6 @@
 use crate::CheckDef;
 
+pub mod c17;
 pub mod c21;
 pub mod c22;
 pub mod c27;
@@ -8,6 +9,16 @@ pub mod c29;
 
 pub fn registry() -> &'static [CheckDef] {
     &[
+        CheckDef {
+            id: "C17",
+            level: "exploration",
+            rule: "One case = one tree on a real page file in a private temp dir: empty or bulk-loaded (0..1500 sorted entries), key schema from {VARCHAR(200) (degree 5), INTEGER+VARCHAR(100) (degree 9), VARCHAR(50), INTEGER, DOUBLE} with NULL components and duplicate keys, key domain 8..2000, then 50-2500 random insert / delete / delete_specific / lookup / multi_lookup / range_scan (all four bound inclusivities, open ends, inverted bounds) with an optional delete-heavy final third; every answer is compared with BTreeMap<Key, Vec<RowId>> (row ids globally unique, so scan order across keys is checkable); every 40 operations the persisted tree is dumped through the verif hook and checked (sorted keys, separators bound subtrees, uniform leaf depth, leaf chain == in-order leaves, contents == model); finally the file is reopened with BTreeIndex::load and compared again. distinct = (schema, bulk/empty, key domain, max height reached, root collapse seen, delete phase).",
+            floor: 12,
+            shards: 16,
+            cpu_budget_ms: 120_000,
+            run: c17::run,
+            assumptions: &["NativeStorage page files in the system temp dir", "minimum node occupancy is not part of the stated well-formedness and is not judged"],
+        },
         CheckDef {
             id: "C21",
             level: "exploration",
